@@ -176,6 +176,7 @@ structure MainState where
   policy : Policy := .physical
   showConfig : Bool := false
   verbose : Bool := false
+  images : List Bytes := []       -- names given with --file, in order
 deriving Inhabited
 
 def geometryDescription (g : Geometry) : Bytes :=
@@ -258,7 +259,7 @@ def attachFile (fs : HostFs) (ndebug : Bool) (arg : Bytes) (st : MainState) : Ex
         | .ok ds =>
           match st.storage.connect ds st.policy with
           | none => .error { err := true, exit := 1 }
-          | some s' => .ok { st with storage := s', medias := st.medias ++ [m], verbose := st.verbose || warned }
+          | some s' => .ok { st with storage := s', medias := st.medias ++ [m], verbose := st.verbose || warned, images := st.images ++ [arg] }
       | .flux sides noise =>
         -- HfeFile/HxcMfmFile::connect_drives: every side is probed
         let idx := st.medias.length
@@ -277,7 +278,7 @@ def attachFile (fs : HostFs) (ndebug : Bool) (arg : Bytes) (st : MainState) : Ex
         | .ok ds =>
           match st.storage.connect ds st.policy with
           | none => .error { err := true, exit := 1 }
-          | some s' => .ok { st with storage := s', medias := st.medias ++ sides.map (·.2), verbose := st.verbose || noise }
+          | some s' => .ok { st with storage := s', medias := st.medias ++ sides.map (·.2), verbose := st.verbose || noise, images := st.images ++ [arg] }
 
 /-- the option loop of `main` -/
 def optLoop (fs : HostFs) (ndebug : Bool) : List Opt → MainState → Except RunRes MainState
@@ -319,7 +320,7 @@ def dfsRun (fs : HostFs) (ndebug : Bool) (screenCols : Option Nat) (opts : List 
       if knownUnmodelledCommand cmd then { unmodelled := some "help" }
       else
         let env : Env := { storage := st.storage, media := fun i => st.medias.getD i (fun _ => none),
-                           ctx := st.ctx, ndebug := ndebug, screenCols := screenCols }
+                           ctx := st.ctx, ndebug := ndebug, screenCols := screenCols, images := st.images }
         match runCommand env rest with
         | none => { err := true, exit := 1 }
         | some r =>
